@@ -28,7 +28,8 @@ RULE = (
     '-99999, -9999999, -8888.8, -999.9, 9999999) and adversarial (>= 8 '
     'significant digits: -99999999, -9999.9999, ...) sets as int or float, '
     'random masks (none / some / all), 0-6 single-line header attributes '
-    '(ICARTT keywords and neutral names, values with : , ; =), optional '
+    '(ICARTT keywords and neutral names, text values with : , ; = or plain '
+    'numbers), optional '
     'PI/ORG/... lines, WDATE present or not, INDEPENDENT_VARIABLE_DEFINITION '
     '"name, unit" present or not; written through file.save(format='
     '"ffi1001") or ncf2ffi1001 directly.  Unmasked values never print like '
@@ -56,7 +57,7 @@ ASSUMPTIONS = [
     'the returned (still open) output handle is closed by the caller before '
     'reading',
 ]
-BUDGET = {'quick': dict(examples=4000, max_s=240),
+BUDGET = {'quick': dict(examples=3200, max_s=240),
           'thorough': dict(examples=100000, max_s=3000)}
 
 NAMES = ['O3', 'NO2_ppbv', 'CO', 'HCHO_pptv', 'Pressure', 'Temp_K', 'ALT',
@@ -78,7 +79,8 @@ ATTRKEYS = ['PI_CONTACT_INFO', 'PLATFORM', 'LOCATION', 'ASSOCIATED_DATA',
 ATTRVALS = ['N/A', 'NASA DC8', 'see ftp://ftp-air.larc.nasa.gov/pub/x',
             'Address: 503 Walker Building; email: a@b.edu; 814-865-3286',
             'Units are pptv.', 'R0', '+/- 32% at two sigma', 'a=1, b=2',
-            '2004 06 26', 'Final data: use with care: ok', '1', 'x']
+            '2004 06 26', 'Final data: use with care: ok', '1', 'x', 3, 2.5,
+            -9999]
 HEAD = ['PI_NAME', 'ORGANIZATION_NAME', 'SOURCE_DESCRIPTION', 'MISSION_NAME',
         'VOLUME_INFO', 'TIME_INTERVAL']
 HEADVALS = {'PI_NAME': ['Brune, William', 'Doe, J.'],
@@ -261,10 +263,9 @@ known.register(
     'C19-indep-unit-lost',
     lambda spec, f: f.clause == 'read-indep-unit' and
     spec['indep']['definition'])
-known.register(
-    'C19-autodetect-short-file',
-    lambda spec, f: f.clause == 'autodetect' and _nlines(spec) < 28 and
-    'l100' in f.detail)
+# (C19-autodetect-short-file - l100.isMine claimed every output shorter than
+# 28 lines - was repaired in /repo, commit 513d711; its reproducer is now the
+# regression case replays/C19/fixed-autodetect-short-file.json)
 
 
 # ------------------------------------------------------------------ oracle
